@@ -18,6 +18,7 @@ CLI = os.path.join(TARGET, "cli", "release", "blots")
 CLI_HOOKS = os.path.join(TARGET, "cli-hooks", "release", "blots")
 KNOWN = os.path.join(VERIF, "KNOWN_FINDINGS.txt")
 NCPU = os.cpu_count() or 4
+CASE_WATCHDOG = 30  # seconds without journal progress (generous: 1000x the slowest case seen)
 
 ENV = dict(os.environ)
 ENV["CARGO_NET_OFFLINE"] = "true"
@@ -105,21 +106,83 @@ def _limits():
         pass
 
 
-def run_probe(pid, tier, seed, shard, nshards, rundir, extra_opts, timeout):
+def run_probe(pid, tier, seed, shard, nshards, rundir, extra_opts, timeout, journal=False):
+    """Run one shard. With journal=True the probe records every case before executing it; if the
+    process dies (stack overflow, abort, escaped panic) the death is recorded together with the last
+    journalled case and the shard is restarted behind it."""
     out_path = os.path.join(rundir, f"shard{shard}.jsonl")
     err_path = os.path.join(rundir, f"shard{shard}.err")
     hash_path = os.path.join(rundir, f"shard{shard}.hashes")
-    cmd = [PROBE, pid, "--seed", str(seed), "--tier", tier, "--shard", f"{shard}/{nshards}", "--hashes", hash_path]
+    jpath = os.path.join(rundir, f"shard{shard}.journal")
+    base = [PROBE, pid, "--seed", str(seed), "--tier", tier, "--shard", f"{shard}/{nshards}"]
     for k, v in extra_opts.items():
-        cmd += [f"--{k}", str(v)]
+        base += [f"--{k}", str(v)]
     t0 = time.time()
+    deaths = []
+    start = 0
+    rc = None
+    attempt = 0
     with open(out_path, "w") as fo, open(err_path, "w") as fe:
-        try:
-            p = subprocess.run(cmd, stdout=fo, stderr=fe, env=ENV, timeout=timeout, preexec_fn=_limits, cwd=rundir)
-            rc = p.returncode
-        except subprocess.TimeoutExpired:
-            rc = "timeout"
-    return {"shard": shard, "rc": rc, "out": out_path, "err": err_path, "hashes": hash_path, "wall": time.time() - t0}
+        while True:
+            cmd = base + ["--hashes", hash_path + (f".{attempt}" if attempt else "")]
+            if journal:
+                if os.path.exists(jpath):
+                    os.remove(jpath)
+                cmd += ["--journal", jpath, "--start", str(start)]
+            left = max(5, timeout - (time.time() - t0))
+            if not journal:
+                try:
+                    p = subprocess.run(cmd, stdout=fo, stderr=fe, env=ENV, timeout=left, preexec_fn=_limits, cwd=rundir)
+                    rc = p.returncode
+                except subprocess.TimeoutExpired:
+                    rc = "timeout"
+            else:
+                # per-case watchdog: no journal progress for CASE_WATCHDOG seconds => kill, skip the case
+                proc = subprocess.Popen(cmd, stdout=fo, stderr=fe, env=ENV, preexec_fn=_limits, cwd=rundir)
+                last_size, last_change, t_start = -1, time.time(), time.time()
+                rc = None
+                while True:
+                    try:
+                        rc = proc.wait(timeout=0.5)
+                        break
+                    except subprocess.TimeoutExpired:
+                        pass
+                    try:
+                        sz = os.path.getsize(jpath)
+                    except OSError:
+                        sz = -1
+                    now = time.time()
+                    if sz != last_size:
+                        last_size, last_change = sz, now
+                    if now - last_change > CASE_WATCHDOG:
+                        proc.kill()
+                        proc.wait()
+                        rc = "case-watchdog"
+                        break
+                    if now - t_start > left:
+                        proc.kill()
+                        proc.wait()
+                        rc = "timeout"
+                        break
+            if not journal or rc == 0 or rc == "timeout" or rc in (2, 3) or attempt >= 25:
+                break
+            # abnormal death: last journal line = the case that was executing
+            last_k, last_payload = None, ""
+            try:
+                with open(jpath, "rb") as jf:
+                    lines = jf.read().decode("utf-8", "replace").splitlines()
+                if lines:
+                    k, _, payload = lines[-1].partition("\t")
+                    last_k, last_payload = int(k), payload
+            except Exception:
+                pass
+            if last_k is None:
+                break
+            deaths.append({"rc": rc, "case_index": last_k, "case": last_payload})
+            start = last_k + 1
+            attempt += 1
+    hashes = [hash_path] + [f"{hash_path}.{i}" for i in range(1, attempt + 1)]
+    return {"shard": shard, "rc": rc, "out": out_path, "err": err_path, "hashes": hashes, "wall": time.time() - t0, "deaths": deaths}
 
 
 def count_distinct(hash_files):
@@ -143,7 +206,8 @@ class Results:
         self.stats = {"evaluations": 0, "nontrivial": 0, "violations": 0}
         self.counters = {}
         self.viol_by_sig = {}
-        self.inconclusive = []   # reasons
+        self.inconclusive = []   # reasons that make the whole run inconclusive
+        self.inconclusive_cases = []  # single cases without a verdict (watchdog, allocation failure)
 
 
 def parse_outputs(pid, shard_results, res, keep_recs=True):
@@ -220,10 +284,29 @@ def run_check(spec, pid, tier, seed, replay_sig=None):
     shard_results = []
     if nshards > 0:
         with ThreadPoolExecutor(max_workers=min(nshards, NCPU)) as ex:
-            futs = [ex.submit(run_probe, pid, tier, seed, i, nshards, rundir, extra, timeout) for i in range(nshards)]
+            futs = [ex.submit(run_probe, pid, tier, seed, i, nshards, rundir, extra, timeout, bool(spec.get("journal"))) for i in range(nshards)]
             shard_results = [f.result() for f in futs]
         parse_outputs(pid, shard_results, res, keep_recs=bool(spec.get("offline")))
-    distinct = count_distinct([sr["hashes"] for sr in shard_results])
+    distinct = count_distinct([h for sr in shard_results for h in (sr["hashes"] if isinstance(sr["hashes"], list) else [sr["hashes"]])])
+    # process deaths observed through the crash journal (C01)
+    for sr in shard_results:
+        for d in sr.get("deaths", []):
+            rcd = d["rc"]
+            how = {101: "panic escaped (exit 101)", -11: "SIGSEGV (stack overflow?)", -6: "SIGABRT", -9: "SIGKILL"}.get(rcd, f"exit {rcd}")
+            errtail = ""
+            try:
+                with open(sr["err"]) as f:
+                    errtail = f.read()[-400:]
+            except Exception:
+                pass
+            if "memory allocation of" in errtail and rcd == -6:
+                res.inconclusive_cases.append(f"allocation failure abort (resource exhaustion) on case {d['case'][:200]}")
+                continue
+            if rcd == "case-watchdog":
+                res.inconclusive_cases.append(f"per-case watchdog ({CASE_WATCHDOG}s without progress) on case {d['case'][:200]}")
+                continue
+            res.viols.append({"t": "viol", "prop": pid, "sig": f"process-death {how}", "what": "the worker process died while executing this case",
+                              "case": {"case": d["case"], "stderr_tail": errtail}})
     # offline checkers / process-level monitors written in Python
     extra_cov = {}
     if spec.get("offline"):
@@ -266,6 +349,8 @@ def run_check(spec, pid, tier, seed, replay_sig=None):
         "observations": res.obs[:20],
         "cross_property_observations": [{"prop": e.get("prop"), "sig": e.get("sig"), "what": e.get("what")} for e in res.cross[:20]],
         "inconclusive": res.inconclusive,
+        "inconclusive_cases": res.inconclusive_cases[:40],
+        "inconclusive_case_count": len(res.inconclusive_cases),
     }
     coverage.update(extra_cov)
     evidence = {
